@@ -23,8 +23,11 @@ def case(g, tier, ci):
     seqx = r.random() < 0.12
     subs = 0.0 if seqx else (0.2 if r.random() < 0.5 else 0.0)
     N = r.randint(2400, 2420) if seqx else None
+    # 12%: the sequence's own sample rate differs from its elements' (still consistent)
+    factor = r.choice([2, 10]) if (r.random() < 0.12 and subs == 0.0) else 1
     ops, info = sg.sequence("s", npos=(1, 3), nch=(1, 4), SR=SR, N=N, raw_p=0.3, kinds=("ramp", "sine") if not seqx else ("ramp",),
-                            flags_p=0.1, delays_p=0.0, filters_p=0.0, sub_p=subs, waits=0.3, amp=100, seq_p=0.1)
+                            flags_p=0.1, delays_p=0.0, filters_p=0.0, sub_p=subs, waits=0.3, amp=100, seq_p=0.1,
+                            seq_sr_factor=factor)
     chans = info["chans"]
     # delays: samples 0 or >= 2, pairwise differences 0 or >= 2
     pool = [0, 2, 3, 5, 7, 29] if r.random() < 0.7 else [0, 2, 4, 9]
@@ -45,6 +48,7 @@ def case(g, tier, ci):
     if not info["subs"]:
         ops += [{"op": "sq.awg", "id": "s"}, {"op": "sq.seqx", "id": "s"}]
     ops[0]["_delays"] = {str(k): v for k, v in chosen.items()}
+    ops[0]["_factor"] = factor
     return ops
 
 
@@ -67,7 +71,7 @@ def post_check(ops, ri, rm):
 
     def num(v):
         return float(Fraction(v["q"])) if isinstance(v, dict) else float(v)
-    SR = num(SRv)
+    SR = num(SRv) / ops[0].get("_factor", 1)        # delays count in samples of the elements
     D = {ch: int(round(num(v) * SR)) for ch, v in actual.items()}
     fd = next((r for o, r in zip(ops, ri) if o.get("_d")), None)
     fu = next((r for o, r in zip(ops, ri) if o.get("_u")), None)
